@@ -72,6 +72,9 @@ UndQuirkEdges(b, a, s) ==
 Bad(r) ==
     LET h == Effective(r)
         row(t, a) == t[a + 1]
+        \* every node of the underlying graph is queried: a node the adaptor filters out has no incident edge in the
+        \* graph it presents, so every per-node query at it must come back empty (its index sets are empty in h)
+        AllV == 0 .. (r.n - 1)
         chk(f, P(_)) == IF Has(r, f) /\ ~(Ok(r[f]) /\ P(r[f][2])) THEN {f} ELSE {}
     IN
     chk("nodes", LAMBDA v : NoDup(v) /\ SeqRange(v) = h.V)
@@ -84,19 +87,19 @@ Bad(r) ==
                                  /\ Cardinality(SeqRange(v.to)) = r.n
                                  /\ (Has(r, "compact") => SeqRange(v.to) = 0 .. (r.n - 1)))
     \cup (IF r.adaptor = "und" /\ Has(r, "nbr") /\ Ok(r.nbr)
-             /\ ~(\A a \in h.V : NbrOK(h, a, row(r.nbr[2], a), OutIx(h, a)))
-             /\ (\A a \in h.V : UndQuirkNbr(Base(r), a, row(r.nbr[2], a)))
+             /\ ~(\A a \in AllV : NbrOK(h, a, row(r.nbr[2], a), OutIx(h, a)))
+             /\ (\A a \in AllV : UndQuirkNbr(Base(r), a, row(r.nbr[2], a)))
           THEN {"und_quirk_nbr"}
-          ELSE chk("nbr", LAMBDA v : \A a \in h.V : NbrOK(h, a, row(v, a), OutIx(h, a))))
-    \cup chk("nbr_out", LAMBDA v : \A a \in h.V : NbrOK(h, a, row(v, a), OutIx(h, a)))
-    \cup chk("nbr_in", LAMBDA v : \A a \in h.V : NbrOK(h, a, row(v, a), InIx(h, a)))
+          ELSE chk("nbr", LAMBDA v : \A a \in AllV : NbrOK(h, a, row(v, a), OutIx(h, a))))
+    \cup chk("nbr_out", LAMBDA v : \A a \in AllV : NbrOK(h, a, row(v, a), OutIx(h, a)))
+    \cup chk("nbr_in", LAMBDA v : \A a \in AllV : NbrOK(h, a, row(v, a), InIx(h, a)))
     \cup (IF r.adaptor = "und" /\ Has(r, "edges") /\ Ok(r.edges)
-             /\ ~(\A a \in h.V : EdgesOK(h, a, row(r.edges[2], a), 0))
-             /\ (\A a \in h.V : UndQuirkEdges(Base(r), a, row(r.edges[2], a)))
+             /\ ~(\A a \in AllV : EdgesOK(h, a, row(r.edges[2], a), 0))
+             /\ (\A a \in AllV : UndQuirkEdges(Base(r), a, row(r.edges[2], a)))
           THEN {"und_quirk_edges"}
-          ELSE chk("edges", LAMBDA v : \A a \in h.V : EdgesOK(h, a, row(v, a), 0)))
-    \cup chk("edges_out", LAMBDA v : \A a \in h.V : EdgesOK(h, a, row(v, a), 0))
-    \cup chk("edges_in", LAMBDA v : \A a \in h.V : EdgesOK(h, a, row(v, a), 1))
+          ELSE chk("edges", LAMBDA v : \A a \in AllV : EdgesOK(h, a, row(v, a), 0)))
+    \cup chk("edges_out", LAMBDA v : \A a \in AllV : EdgesOK(h, a, row(v, a), 0))
+    \cup chk("edges_in", LAMBDA v : \A a \in AllV : EdgesOK(h, a, row(v, a), 1))
     \cup chk("adj", LAMBDA v : \A a, b \in h.V : v[a + 1][b + 1] = Adjacent(h, a, b))
     \cup chk("is_directed", LAMBDA v : v = h.dir)
 
